@@ -178,6 +178,14 @@ fn check(rep: &mut Report, b: &Build, cls: &str) {
             _ => {}
         }
     }
+    rep.sample(5, || {
+        let mut o = J::obj();
+        o.set("class", J::s(cls));
+        o.set("line", J::bytes(&line[..line.len().min(140)]));
+        o.set("reference", J::s(&format!("talker {} report {} {}/{} id {:?} channel {:?} fill {}", talker_ref(f.talker), report_ref(f.formatter), f.k, f.n, f.id, f.chan.first().map(|b| char::from(*b)), f.fill)));
+        o.set("observed_decode_off", J::s(&outs.get(0).map(|o| o.canon()).unwrap_or_default().chars().take(100).collect::<String>()));
+        o
+    });
     rep.class(cls.to_string());
     rep.count("accepted_lines_checked");
 }
